@@ -9,17 +9,18 @@ import (
 )
 
 var (
-	flagRole     = flag.String("mc.role", "", "check | worker | replay | list")
-	flagProp     = flag.String("mc.prop", "", "property id")
-	flagTier     = flag.String("mc.tier", "quick", "quick | thorough")
-	flagReplay   = flag.String("mc.replay", "", "replay artefact")
-	flagWorkers  = flag.Int("mc.workers", 0, "worker processes (0 = NumCPU)")
-	flagVerifDir = flag.String("mc.dir", "/verif", "verif directory")
-	flagScenario = flag.String("mc.scenario", "", "only scenarios whose name contains this")
-	flagKillDir  = flag.String("mc.killdir", "", "store directory of the kill child")
-	flagChildSc  = flag.String("mc.childscenario", "", "scenario (JSON) of the run/recover child")
-	flagBound    = flag.Int("mc.bound", -1, "override the deviation bound (explore1)")
-	flagNoPrune  = flag.Bool("mc.noprune", false, "disable pruning (explore1)")
+	flagRole      = flag.String("mc.role", "", "check | worker | replay | list")
+	flagProp      = flag.String("mc.prop", "", "property id")
+	flagTier      = flag.String("mc.tier", "quick", "quick | thorough")
+	flagReplay    = flag.String("mc.replay", "", "replay artefact")
+	flagWorkers   = flag.Int("mc.workers", 0, "worker processes (0 = NumCPU)")
+	flagBudgetMin = flag.Int("mc.budgetmin", -1, "wall budget in minutes (-1 = default of the tier, 0 = none)")
+	flagVerifDir  = flag.String("mc.dir", "/verif", "verif directory")
+	flagScenario  = flag.String("mc.scenario", "", "only scenarios whose name contains this")
+	flagKillDir   = flag.String("mc.killdir", "", "store directory of the kill child")
+	flagChildSc   = flag.String("mc.childscenario", "", "scenario (JSON) of the run/recover child")
+	flagBound     = flag.Int("mc.bound", -1, "override the deviation bound (explore1)")
+	flagNoPrune   = flag.Bool("mc.noprune", false, "disable pruning (explore1)")
 )
 
 func TestMain(m *testing.M) {
